@@ -118,10 +118,11 @@ def run_cases(cases, target, nworkers=None, python=None, timeout=20.0, batch=1, 
                     b = q.get_nowait()
                 except queue.Empty:
                     return
-                if (deadline is not None and time.time() > deadline) or timeouts[0] > MAX_TIMEOUTS:
+                hanging = timeouts[0] > MAX_TIMEOUTS and timeouts[0] * 2 > len(results)     # most cases time out: the tree hangs
+                if (deadline is not None and time.time() > deadline) or hanging:
                     with lock:
                         skipped[0] += len(b)
-                        if timeouts[0] > MAX_TIMEOUTS:
+                        if hanging:
                             for c in b:
                                 results.append((c, {'status': 'inconclusive', 'reason': 'aborted-after-many-timeouts'}))
                                 if on_result:
